@@ -60,7 +60,11 @@ class NetworkxGraph(AbstractGraph):
             importer = imp.importer()
             importee = imp.importee()
 
-            self._create_edge(importer, importee)
+            if self._is_known_module(importer) and self._is_known_module(importee):
+                # with a level limit the flattened name of an importee that is no module
+                # (e.g. a function, or a module removed by an exclusion) would otherwise
+                # be mistaken for its ancestor module
+                self._create_edge(importer, importee)
 
             self._add_edges_within_module_hierarchy(
                 imp.importer_parent_modules(),
@@ -74,7 +78,17 @@ class NetworkxGraph(AbstractGraph):
             ):
                 self._create_edge(parent, child, inherits=True)
 
+    def _is_known_module(self, module: Node) -> bool:
+        if self._level_limit is None:
+            return True  # decided when the edge is created
+
+        return module in self._known_modules
+
     def _add_all_modules_as_nodes(self) -> None:
+        self._known_modules = set(self._all_modules)
+        for module in self._all_modules:
+            self._known_modules.update(get_parent_modules(module))
+
         for module in self._all_modules:
             self._create_node(module)
 
